@@ -115,7 +115,7 @@ func c18Body(r *Run) {
 	}
 	var callers []*c18Caller
 	for i := 0; i < nCallers; i++ {
-		c := &c18Caller{id: i, behaviour: t.Int(7)}
+		c := &c18Caller{id: i, behaviour: t.Int(8)}
 		if c.behaviour == 5 {
 			c.behaviour = 0
 		}
@@ -136,7 +136,7 @@ func c18Body(r *Run) {
 	}
 	r.Describe("%d concurrent requests on one reply topic, AckCommandErrors=%v, ListenForReplyTimeout=%v, reply publisher fails on calls %v", nCallers, ackErrors, timeout, replyPub.FailAt)
 	for _, c := range callers {
-		r.Describe("caller %d: behaviour %d (0 SendWithReply, 1 drain then cancel, 2 read one then cancel, 3 never read then cancel, 4 cancel before reply, 5 never read, never cancel: time-out only, 6 let replies pile up, cancel, then read late), handler fails first %d (all=%v), handler takes %v, cancels after %v", c.id, c.behaviour, c.failFirst, c.failAll, c.delay, c.lateAfter)
+		r.Describe("caller %d: behaviour %d (0 SendWithReply, 1 drain then cancel, 2 read one then cancel, 3 never read then cancel, 4 cancel before reply, 5 never read, never cancel: time-out only, 6 let replies pile up, cancel, then read late, 7 like 2 on a context that never ends), handler fails first %d (all=%v), handler takes %v, cancels after %v", c.id, c.behaviour, c.failFirst, c.failAll, c.delay, c.lateAfter)
 	}
 
 	rig := newRouterRig(r, 30*time.Second)
@@ -372,7 +372,13 @@ func c18Body(r *Run) {
 					c.replies = append(c.replies, rp)
 				}
 			default:
-				ch, rcancel, err := requestreply.SendWithReplies[c18Result](ctx, bus, backend, cmd)
+				sctx := ctx
+				if c.behaviour == 7 {
+					// a context that never ends: everything the request set up is taken down through the returned cancel
+					// function — or, when sending fails, by SendWithReplies itself
+					sctx = context.Background()
+				}
+				ch, rcancel, err := requestreply.SendWithReplies[c18Result](sctx, bus, backend, cmd)
 				if err != nil {
 					c.sendErr = err
 					return
@@ -389,7 +395,7 @@ func c18Body(r *Run) {
 						c.replies = append(c.replies, rp)
 					}
 					c.chClosed = true
-				case 2:
+				case 2, 7:
 					// (a reply may never come: its publication failed and was tolerated, or the router was closed)
 					select {
 					case rp, ok := <-ch:
